@@ -106,6 +106,10 @@ namespace rkcommon {
         const box_t<T, N> &box,
         const range_t<T> &tRange = range_t<T>(0, inf))
     {
+      // a box without points is not hit (the slab test below would treat an
+      // inverted slab like a regular one)
+      if (box.empty())
+        return range_t<T>(empty);
       const auto mins = (box.lower - org) * rcp_safe(dir);
       const auto maxs = (box.upper - org) * rcp_safe(dir);
       return range_t<T>(
